@@ -1,9 +1,8 @@
 package main
 
 import (
-	"context"
-	"time"
 	"bytes"
+	"context"
 	"crypto/sha256"
 	"encoding/json"
 	"fmt"
@@ -11,6 +10,7 @@ import (
 	"os/exec"
 	"path/filepath"
 	"strings"
+	"time"
 
 	"github.com/acekingke/yaccgo/verifsched"
 
